@@ -101,7 +101,7 @@ func main() {
 	case "oracle":
 		var c proto.Corpus
 		readJSON(*corpusPath, &c)
-		runOracle(&c, *order, *ids, *seed)
+		runOracle(&c, *order, *ids, *seed, *free)
 	case "records":
 		var c proto.Corpus
 		var e proto.Expected
@@ -128,7 +128,7 @@ func main() {
 	}
 }
 
-func runOracle(c *proto.Corpus, order, ids string, seed uint64) {
+func runOracle(c *proto.Corpus, order, ids string, seed uint64, free bool) {
 	var sel []int
 	if ids != "" {
 		for _, s := range strings.Split(ids, ",") {
@@ -174,7 +174,7 @@ func runOracle(c *proto.Corpus, order, ids string, seed uint64) {
 		}
 		var outcome string
 		var steps int64
-		if simrt.Instrumented {
+		if simrt.Instrumented && !free {
 			r := simrt.Run(1, 1, simrt.Policy{Kind: simrt.PolSeq, First: -1}, func(int) {
 				simrt.OpBegin(0, 0)
 				outcome, _, _ = invoke(call.Fn, call.Expr, arg)
@@ -274,6 +274,18 @@ func runSim(c *proto.Corpus, e *proto.Expected, seed uint64, proc, runs int, bui
 		probe("stalled_task_released_last", o.sim.Unstalled)
 		probe("truncated_event_log", o.sim.Truncated)
 		nontrivial := (len(rec.Tasks) >= 2 && o.sim.Overlap && o.sim.Switches >= 1) || (rec.Policy.Kind == "seq" && o.stats.ops >= 2)
+		if free {
+			// the schedule is not under the simulator's control: only the workload is
+			// distinguishable
+			h := uint64(0xcbf29ce484222325)
+			for ti, t := range rec.Tasks {
+				for _, op := range t.Ops {
+					h = fold(fold(h, uint64(ti)), uint64(op.Call))
+				}
+			}
+			o.sim.Signature = h
+			nontrivial = len(rec.Tasks) >= 2
+		}
 		if nontrivial {
 			res.NonTrivial = append(res.NonTrivial, o.sim.Signature)
 			if len(res.Samples) < 2 && proc == 0 {
